@@ -404,13 +404,20 @@ def generate(rng, tier, i):
     if f < 0.25:
         faults = ({"mode": "enum_writes", "partial": rng.choice([0.0, 0.5])} if sink == "mem"
                   else {"mode": "fsize", "fracs": [rng.random() for _ in range(4)]})
-    return {
+    scn = {
         "ops": ops, "sink": sink,
         "clock": {"start": rng.choice(["2024-09-05T13:47:54+00:00", "0001-01-01T00:00:00+00:00",
                                        "9999-12-31T23:59:59+00:00", "2016-12-31T23:59:59.999999+00:00"]),
                   "deltas": [rng.choice([0.0, 0.5, 1.0, -3600.0, 86400.0 * 365])]},
         "faults": faults,
     }
+    n_saves = sum(o["op"] in ("save", "save_blocks") for o in ops)
+    if n_saves >= 2 and rng.random() < 0.25:
+        # a second caller saves another (earlier saved) object between two lines of this save
+        at = rng.randrange(2, n_saves + 1)
+        scn["interleave"] = {"at_save": at, "other_save": rng.randrange(1, at), "frac": rng.random(),
+                             "where": rng.choice(["line", "write"])}
+    return scn
 
 
 # =============================================================================
@@ -867,6 +874,9 @@ class CifEngine(Engine):
         text = self._text(scn, sink)
         ctx.log("text", len(text), core.h64(text))
         self._judge(ctx, text, exp, f"save #{n}")
+        il = scn.get("interleave")
+        if il and il["at_save"] == n and not ctx.violations:
+            self._interleaved_save(scn, ctx, op, lib, mod, cif, il, n)
         if target is not None and target != n:
             return
         # --- fault family on this save: failed saves, then the builder is saved again
@@ -931,6 +941,60 @@ class CifEngine(Engine):
                             kind="retry_failed")
             else:
                 self._judge(ctx, self._text(scn, sink), exp2, f"save #{n} (retry after disk full)")
+
+    def _interleaved_save(self, scn, ctx, op, lib, mod, cif, il, n):
+        """Two callers: while this save is between two of its lines, another caller saves an
+        object that was saved before (simulated thread switch at a scenario-chosen line
+        ordinal inside scippneutron/io/cif.py).  Both documents must be what was supplied."""
+        saves = [o for o in scn["ops"] if o["op"] in ("save", "save_blocks")]
+        other = saves[il["other_save"] - 1]
+        prefixes = (cif.__file__,)
+        deltas = seams.CLOCK.deltas
+        seams.CLOCK.deltas = [0.0]  # both callers read the same instant (dates are in the model)
+        try:
+            at_write = il.get("where") == "write"
+            kind = "preempt_in_write" if at_write else "preempt_in_save"
+            counter = seams.Preemptor(prefixes, {})
+            csink = seams.SimStringIO(ctx=ctx)
+            _, e0 = counter.run(lambda: self._save_call(op, lib, csink, cif))
+            if e0 is not None:
+                return
+            total = csink.sim_writes if at_write else counter.ordinal
+            at = min(total - 1, int(il["frac"] * total)) if total else 0
+            exp_m, exp_o = self._expected_doc(op, mod), self._expected_doc(other, mod)
+            sink_o = seams.SimStringIO(ctx=ctx)
+            state = {}
+            ctx.fault_configured(kind)
+
+            def cb(frame):
+                where = "write" if at_write else frame.f_code.co_name
+                ctx.log("preempt", where, at, total)
+                ctx.site("preempt@cif:" + where)
+                state["res"] = self._save_call(other, lib, sink_o, cif)
+
+            if at_write:
+                # this caller blocks in its at-th write(); the other caller's save runs meanwhile
+                sink_m = seams.SimStringIO(ctx=ctx, yield_at={at: cb})
+                _, e1 = self._save_call(op, lib, sink_m, cif)
+            else:
+                sink_m = seams.SimStringIO(ctx=ctx)
+                _, e1 = seams.Preemptor(prefixes, {at: cb}).run(lambda: self._save_call(op, lib, sink_m, cif))
+        finally:
+            seams.CLOCK.deltas = deltas
+        if "res" not in state:
+            ctx.probe("preemption_point_not_reached")
+            return
+        ctx.fault_fired(kind)
+        ctx.probe("two_saves_interleaved")
+        e2 = state["res"][1]
+        for who, e in (("pre-empted", e1), ("pre-empting", e2)):
+            if e is not None:
+                ctx.violate("save_raised", f"save #{n} interleaved at line event {at}/{total}: the {who} "
+                            f"caller's save raised {e}", kind="interleaved_save_raised", exc=e.name,
+                            hazards=sorted(self._hz), found_by="interleaving")
+                return
+        self._judge(ctx, sink_m.getvalue(), exp_m, f"save #{n}, pre-empted at line event {at}/{total}")
+        self._judge(ctx, sink_o.getvalue(), exp_o, f"save #{il['other_save']} run inside save #{n}")
 
     def _found_by(self):
         return "workload value" if self._hz - {"empty", "quote", "both_quotes", "non_ascii", "multiline"} else "program"
@@ -1197,6 +1261,10 @@ class CifEngine(Engine):
         if s["faults"]["mode"] != "none":
             c = copy.deepcopy(s)
             c["faults"] = {"mode": "none"}
+            yield c
+        if s.get("interleave"):
+            c = copy.deepcopy(s)
+            del c["interleave"]
             yield c
         if s["sink"] != "mem" and s["faults"]["mode"] == "none":
             c = copy.deepcopy(s)
